@@ -4,6 +4,7 @@
 package main
 
 import (
+	"runtime/pprof"
 	"encoding/json"
 	"flag"
 	"fmt"
@@ -26,6 +27,7 @@ var (
 	flagVerbose  = flag.Bool("v", false, "print every obligation")
 	flagArch     = flag.String("goarch", "", "GOARCH to analyse (default amd64)")
 	flagDump     = flag.String("dump", "", "dump the SSA of the named function (debug)")
+	flagProf     = flag.String("cpuprofile", "", "write a CPU profile (debug)")
 )
 
 func main() {
@@ -36,6 +38,16 @@ func main() {
 	}
 	if tier != "thorough" {
 		tier = "quick"
+	}
+	if *flagProf != "" {
+		f, _ := os.Create(*flagProf)
+		pprof.StartCPUProfile(f)
+		defer pprof.StopCPUProfile()
+		go func() {
+			time.Sleep(40 * time.Second)
+			pprof.StopCPUProfile()
+			os.Exit(3)
+		}()
 	}
 	if *flagList {
 		listRules()
@@ -75,6 +87,9 @@ func main() {
 		if c > code {
 			code = c
 		}
+	}
+	if *flagProf != "" {
+		pprof.StopCPUProfile()
 	}
 	os.Exit(code)
 }
@@ -238,6 +253,10 @@ func runRule(ctx *Ctx, r *Rule, prop string) (obs []Obligation) {
 		if o.Status != "info" {
 			n++
 		}
+	}
+	if os.Getenv("LZSTAT") != "" {
+		fmt.Fprintf(os.Stderr, "STAT %s prove=%d entail=%d fm=%d\n", r.ID, statProve, statEntail, statFM)
+		statProve, statEntail, statFM = 0, 0, 0
 	}
 	if n < r.Min {
 		obs = append(obs, Obligation{Rule: r.ID, Construct: "vacuity", Status: "fail",
